@@ -58,10 +58,10 @@ var _ = late(func() {
 			Run:    ruleReplicateUntilClosed})
 
 	// ---- C18 / C20 ------------------------------------------------------------------------------------------------------
-	properties["C18"].Rules = append(properties["C18"].Rules, &Rule{ID: "C18.ctx-arm-returns-err", Floor: 2,
+	properties["C18"].Rules = append(properties["C18"].Rules, &Rule{ID: "C18.ctx-arm-returns-err", Floor: 1,
 		Clause: "in xsync every return inside the <-ctx.Done() arm of a select (ContextCond.Wait, Future.WaitContext) yields ctx.Err() evaluated in that arm: a nil or stale error reports a wait that never completed as a success",
 		Run:    func(c *Ctx, r *R) { ruleCtxArmReturnsErr(c, r, "xsync") }})
-	properties["C10"].Rules = append(properties["C10"].Rules, &Rule{ID: "C10.ctx-arm-returns-err", Floor: 4,
+	properties["C10"].Rules = append(properties["C10"].Rules, &Rule{ID: "C10.ctx-arm-returns-err", Floor: 2,
 		Clause: "in stream and chans every return inside the <-ctx.Done() arm of a select yields ctx.Err() evaluated in that arm (Send / Next report the expiry of their own context, not success and not another error)",
 		Run:    func(c *Ctx, r *R) { ruleCtxArmReturnsErr(c, r, "stream", "chans") }})
 	properties["C18"].Rules = append(properties["C18"].Rules, &Rule{ID: "C18.ctx-interruptible", Floor: 1,
@@ -893,6 +893,19 @@ func ruleCtxArmReturnsErr(c *Ctx, r *R, rels ...string) {
 				}
 				for _, a := range op.arms {
 					if a.send || a.kind != "ctx-done" || a.body == nil {
+						continue
+					}
+					// only the CALLER's context: the context of a background goroutine that the library cancels itself
+					// (forwardToChan(bgCtx, …) returning nil when Close cancels it) is not an error to report
+					callers := true
+					os := ctxOrigins(a.ctx, map[ssa.Value]bool{})
+					for _, o := range os {
+						p, isP := o.(*ssa.Parameter)
+						if !isP || p.Parent() == nil || p.Parent().Parent() != nil {
+							callers = false
+						}
+					}
+					if !callers || len(os) == 0 {
 						continue
 					}
 					for _, b := range fn.Blocks {
